@@ -30,6 +30,38 @@ OpMenu == <<
     [atom |-> "entry_value", cls |-> "nested", args |-> <<>>]
 >>
 
+\* The complete operand table of the operations (DWARF 4, 7.7.1, and the GNU extensions without
+\* DIE-typed operands).  enc: how the operands are stored; cls: what `value' yields; the example
+\* operands are different for every operation and fit the smallest encoding.
+Op(atom, code, cls, enc, args) == [atom |-> atom, code |-> code, cls |-> cls, enc |-> enc, args |-> args]
+NoOperand(atom, code) == Op(atom, code, "none", <<>>, <<>>)
+OneU(atom, code, enc) == Op(atom, code, "u", <<enc>>, <<code>>)              \* 3 .. 250: fits one byte
+OneS(atom, code, enc) == Op(atom, code, "s", <<enc>>, <<100 - code>>)        \* -150 .. 97: s1 for codes < 0x30
+Family(prefix, base, operand) ==
+    [i \in 1..32 |-> IF operand THEN OneS(prefix \o ToString(i - 1), base + i - 1, "sleb")
+                                ELSE NoOperand(prefix \o ToString(i - 1), base + i - 1)]
+OpTable ==
+    << Op("addr", 3, "addr", <<"a8">>, <<4>>), NoOperand("deref", 6),
+       OneU("const1u", 8, "u1"), OneS("const1s", 9, "s1"), OneU("const2u", 10, "u2"), OneS("const2s", 11, "s2"),
+       OneU("const4u", 12, "u4"), OneS("const4s", 13, "s4"), OneU("const8u", 14, "u8"), OneS("const8s", 15, "s8"),
+       OneU("constu", 16, "uleb"), OneS("consts", 17, "sleb"),
+       NoOperand("dup", 18), NoOperand("drop", 19), NoOperand("over", 20), OneU("pick", 21, "u1"),
+       NoOperand("swap", 22), NoOperand("rot", 23), NoOperand("xderef", 24), NoOperand("abs", 25),
+       NoOperand("and", 26), NoOperand("div", 27), NoOperand("minus", 28), NoOperand("mod", 29),
+       NoOperand("mul", 30), NoOperand("neg", 31), NoOperand("not", 32), NoOperand("or", 33),
+       NoOperand("plus", 34), OneU("plus_uconst", 35, "uleb"), NoOperand("shl", 36), NoOperand("shr", 37),
+       NoOperand("shra", 38), NoOperand("xor", 39),
+       NoOperand("eq", 41), NoOperand("ge", 42), NoOperand("gt", 43), NoOperand("le", 44), NoOperand("lt", 45),
+       NoOperand("ne", 46) >>
+    \o Family("lit", 48, FALSE) \o Family("reg", 80, FALSE) \o Family("breg", 112, TRUE)
+    \o << OneU("regx", 144, "uleb"), OneS("fbreg", 145, "sleb"),
+          Op("bregx", 146, "us", <<"uleb", "sleb">>, <<146, -46>>), OneU("piece", 147, "uleb"),
+          OneU("deref_size", 148, "u1"), OneU("xderef_size", 149, "u1"), NoOperand("nop", 150),
+          NoOperand("push_object_address", 151), NoOperand("form_tls_address", 155),
+          NoOperand("call_frame_cfa", 156), Op("bit_piece", 157, "uu", <<"uleb", "uleb">>, <<157, 57>>),
+          NoOperand("stack_value", 159), NoOperand("GNU_push_tls_address", 224) >>
+    \* DW_OP_GNU_uninit (0xf0) is left out: libdw itself rejects it ("invalid DWARF")
+
 Values(op) ==
     CASE op.cls = "none" -> <<>>
       [] op.cls = "u" -> <<[kind |-> "dec", v |-> op.args[1]]>>
